@@ -87,6 +87,7 @@ type Unit struct {
 	depth  int
 	probes []modelProbe
 	usedLemmas map[string]bool
+	nonNil map[string]bool
 }
 
 func (u *Unit) fresh(prefix string) string {
@@ -231,6 +232,7 @@ func (u *Unit) alloc(st *State, goT types.Type) Term {
 	nr := u.nextRef(st)
 	r := u.define("ref", Term{nr.S, &Sort{K: KRef, Go: goT}})
 	u.setGhost(st, "nextRef", Term{"(+ " + nr.S + " 1)", sInt})
+	u.nonNil[r.S] = true
 	return Term{r.S, &Sort{K: KRef, Go: goT}}
 }
 
